@@ -552,7 +552,7 @@ fn call_manual(ctx: &Ctx, thread: &str, q: &ManualReq) -> Result<Value, String> 
 }
 
 fn current_model(ctx: &Ctx) -> Result<(Vec<u8>, Model), String> {
-    let bytes = ctx.store.log_bytes();
+    let bytes = ctx.store.log_bytes_settled();
     let frames = truth::parse_log(&bytes).map_err(|e| e.detail)?;
     let m = model_of(&frames, &ctx.thread).ok_or_else(|| "thread has no frames".to_string())?;
     Ok((bytes, m))
@@ -586,7 +586,7 @@ fn probe_cut_points(r: &mut Report, ctx: &Ctx, stats: &mut Stats, rng: &mut Rng,
     r.eval();
     stats.c("cut_points_calls_compared");
     let w = |d: Value| json!({"at": wit, "probe": "cut_points", "stride_messages": stride, "limit": limit, "http": http, "messages": m.count(), "detail": d});
-    if ctx.store.log_bytes() != before {
+    if ctx.store.log_bytes_settled() != before {
         r.violation("C09/read_only_call_appended/cut_points", "compaction.cut_points changed events.jsonl", w(json!(null)));
     }
     match (stride, &res) {
@@ -669,7 +669,7 @@ fn probe_status(r: &mut Report, ctx: &Ctx, stats: &mut Stats, rng: &mut Rng, wit
     r.eval();
     stats.c("status_calls_compared");
     let w = |d: Value| json!({"at": wit, "probe": "status", "stride_messages": stride, "http": http, "messages": m.count(), "detail": d});
-    if ctx.store.log_bytes() != before {
+    if ctx.store.log_bytes_settled() != before {
         r.violation("C09/read_only_call_appended/status", "compaction.status changed events.jsonl", w(json!(null)));
     }
     match (stride, res) {
@@ -839,7 +839,7 @@ fn run_exec(r: &mut Report, ctx: &Ctx, stats: &mut Stats, q: &ExecReq, wit: &Val
         }
         (Some(0), Err(_)) => {
             stats.c("stride_zero_rejected");
-            if ctx.store.log_bytes() != before {
+            if ctx.store.log_bytes_settled() != before {
                 r.violation(&format!("C09/rejected_call_appended/{op}"), "a rejected request changed events.jsonl", w(json!(null)));
                 return None;
             }
@@ -875,7 +875,7 @@ fn run_exec(r: &mut Report, ctx: &Ctx, stats: &mut Stats, q: &ExecReq, wit: &Val
             state = "completed".into();
         }
     }
-    let after = ctx.store.log_bytes();
+    let after = ctx.store.log_bytes_settled();
     if !after.starts_with(&before) {
         r.inconclusive("events.jsonl is not an extension of its earlier bytes (C02 matter); call not judged");
         return None;
@@ -1217,7 +1217,7 @@ fn probe_manual(r: &mut Report, ctx: &Ctx, stats: &mut Stats, rng: &mut Rng, art
     let res = call_manual(ctx, &ctx.thread, &q);
     r.eval();
     stats.c("manual_checkpoint_calls");
-    let after = ctx.store.log_bytes();
+    let after = ctx.store.log_bytes_settled();
     let w = |d: Value| json!({"at": wit, "probe": "manual_checkpoint", "class": q.class, "to_seq": q.to_seq, "to_message_id": q.to_message_id,
         "stride_messages": q.stride, "artifact": q.artifact, "http": q.http, "messages": m.count(), "detail": d});
     if !after.starts_with(&before) {
@@ -1596,7 +1596,7 @@ fn sequential_case(cfg: &Cfg, r: &mut Report, rt: &tokio::runtime::Runtime, rng:
             21 => probe_determinism(r, &ctx, stats, rng, &wit),
             _ => {
                 // unknown thread: rejected, nothing appended
-                let before = store.log_bytes();
+                let before = store.log_bytes_settled();
                 let ghost = new_uuid(rng);
                 let q = ExecReq {
                     schedule: rng.bool(),
@@ -1609,7 +1609,7 @@ fn sequential_case(cfg: &Cfg, r: &mut Report, rt: &tokio::runtime::Runtime, rng:
                 };
                 let res = call_exec(&ctx, &ghost, &q);
                 r.eval();
-                if res.is_ok() || store.log_bytes() != before {
+                if res.is_ok() || store.log_bytes_settled() != before {
                     r.violation(
                         &format!("C09/unknown_thread_not_rejected/{}", q.op()),
                         "auto/schedule on a thread id that does not exist was accepted or appended frames",
@@ -1622,7 +1622,7 @@ fn sequential_case(cfg: &Cfg, r: &mut Report, rt: &tokio::runtime::Runtime, rng:
         }
     }
     // final: the whole log is a valid set of streams
-    match truth::parse_log(&store.log_bytes()) {
+    match truth::parse_log(&store.log_bytes_settled()) {
         Ok(frames) => {
             if let Err(e) = truth::check_streams(&frames) {
                 r.violation(
@@ -1683,7 +1683,7 @@ fn concurrent_case(cfg: &Cfg, r: &mut Report, rt: &tokio::runtime::Runtime, s: &
             );
         }
     }
-    let baseline = truth::parse_log(&store.log_bytes()).map(|f| truth::stream(&f, "continuity", &thread).len()).unwrap_or(0);
+    let baseline = truth::parse_log(&store.log_bytes_settled()).map(|f| truth::stream(&f, "continuity", &thread).len()).unwrap_or(0);
     let mut threads = 2 + rng.usize(7);
     let mut strides: Vec<u64> = {
         let a = *rng.pick(&[1u64, 2, 3, 5]);
@@ -1796,7 +1796,7 @@ fn concurrent_case(cfg: &Cfg, r: &mut Report, rt: &tokio::runtime::Runtime, s: &
         r.violation("C09/concurrent/caller_panicked", "a thread calling auto/schedule panicked", wit(json!(null)));
         return;
     }
-    let frames = match truth::parse_log(&store.log_bytes()) {
+    let frames = match truth::parse_log(&store.log_bytes_settled()) {
         Ok(f) => f,
         Err(e) => {
             r.violation(&format!("C09/concurrent/log_invalid/{}", e.kind), &e.detail, wit(json!(e.detail)));
@@ -2204,7 +2204,7 @@ fn directed_schedule_plans_twice(r: &mut Report, rt: &tokio::runtime::Runtime, s
         r.inconclusive("directed schedule_plans_twice: the interleaved checkpoint was never placed");
         return;
     }
-    let after = store.log_bytes();
+    let after = store.log_bytes_settled();
     let added = truth::parse_log(&after[before.len().min(after.len())..]).unwrap_or_default();
     let spawned = added.iter().find(|f| f.ty() == "continuity_job_spawned");
     let ended = added.iter().find(|f| f.ty() == "continuity_job_ended");
